@@ -21,6 +21,8 @@ type Knobs struct {
 	HidePrecommitP, HideCommitP float64
 	// drop ELECTION_VOTE messages that carry a HighQC (the new leader does not learn the lock)
 	MuteLockedP float64
+	// drop PRECOMMIT_VOTE messages to honest leaders (replicas lock but nobody can form the commit certificate)
+	DropPrecommitVotesP float64
 	// drop ELECTION candidacy messages of honest replicas (lets Byzantine keys win / forces the fallback)
 	SuppressHonestCandidatesP float64
 	// drop gossiped blocks with this probability (replicas must commit through consensus messages)
@@ -65,8 +67,9 @@ type Omni struct {
 	OnCommit func(i int, c Commit)
 	// Tune, when set, may adjust the knobs just before the plan of a new (height, root height, round) is drawn
 	Tune func(a *Omni, v *lib.View)
-	// Healed: after GST the adversary delivers everything promptly and Byzantine keys go silent
-	Healed bool
+	// Healed: after GST the adversary delivers everything promptly; ByzQuiet: Byzantine keys stop acting
+	Healed   bool
+	ByzQuiet bool
 }
 
 type viewPlan struct {
@@ -199,6 +202,10 @@ func (a *Omni) Route(w *Wire) []Delivery {
 			a.Acts["mute-locked"]++
 			return nil
 		}
+		if m.Qc.Header.Phase == bft.PrecommitVote && a.rng.Float64() < a.K.DropPrecommitVotesP {
+			a.Acts["drop-precommit-vote"]++
+			return nil
+		}
 	}
 	if a.rng.Float64() < a.K.DropP {
 		return nil
@@ -270,14 +277,14 @@ func (a *Omni) observe(w *Wire) {
 		}
 		vs.sigs[w.From] = m.Signature.Signature
 		// Byzantine keys second every election vote cast for an honest candidate
-		if m.Qc.Header.Phase == bft.ElectionVote && !a.isByz(w.To) && a.K.ByzVote && !a.K.Silent && !a.Healed && !a.seenLeader["ev"+k] {
+		if m.Qc.Header.Phase == bft.ElectionVote && !a.isByz(w.To) && a.K.ByzVote && !a.K.Silent && !a.ByzQuiet && !a.seenLeader["ev"+k] {
 			a.seenLeader["ev"+k] = true
 			for _, b := range a.byz {
 				a.s.Inject(w.To, mustMarshal(a.vote(b, vs.tmpl)), a.delay())
 				a.Acts["byz-election-vote"]++
 			}
 		}
-		if a.isByz(w.To) && !a.K.Silent && !a.Healed {
+		if a.isByz(w.To) && !a.K.Silent && !a.ByzQuiet {
 			a.onVoteToByz(w.To, m, vs)
 		}
 	}
@@ -310,7 +317,7 @@ func mustMarshal(m *bft.Message) []byte {
 
 // byzVoteFor: Byzantine keys vote for an honest leader's proposal (and try duplicates / bad signatures).
 func (a *Omni) byzVoteFor(leaderMsg *bft.Message, phase lib.Phase, leader int) {
-	if !a.K.ByzVote || a.K.Silent || a.Healed {
+	if !a.K.ByzVote || a.K.Silent || a.ByzQuiet {
 		return
 	}
 	h := leaderMsg.Header.Copy()
@@ -391,7 +398,7 @@ func (a *Omni) AfterPhase(i int, handled lib.Phase) {
 	if handled == bft.PrecommitVote && a.OnLock != nil && r.BFT.HighQC != nil {
 		a.OnLock(i, r.BFT.HighQC)
 	}
-	if a.K.Silent || a.K.NoByzCandidates || a.Healed || handled != bft.Election {
+	if a.K.Silent || a.K.NoByzCandidates || a.ByzQuiet || handled != bft.Election {
 		return
 	}
 	v := r.BFT.View.Copy()
@@ -640,7 +647,7 @@ func (a *Omni) leaderSend(ls *leadState, phase lib.Phase, qc *lib.QuorumCertific
 
 // ReplayOld re-sends previously seen leader messages to everybody (old rounds, old root heights).
 func (a *Omni) ReplayOld(n int) {
-	if len(a.leaderMsgs) == 0 {
+	if len(a.leaderMsgs) == 0 || a.ByzQuiet {
 		return
 	}
 	for k := 0; k < n; k++ {
